@@ -125,8 +125,9 @@ class Ctx(object):
                "coverage": cov, "assumptions": self.assumptions, "wall_s": round(wall, 2),
                "violations": len(self.violations)}
         if write:
-            os.makedirs(EVID, exist_ok=True)
-            with open(os.path.join(EVID, "%s.json" % self.prop), "w") as f:
+            evid = EVID if not self.prop.startswith("X") else os.path.join(EVID, "extensions")
+            os.makedirs(evid, exist_ok=True)
+            with open(os.path.join(evid, "%s.json" % self.prop), "w") as f:
                 f.write(json.dumps(json.loads(jdump(doc)), indent=1, sort_keys=True))
         if self.violations:
             print("%s: %d violation(s) in %.1fs" % (self.prop, len(self.violations), wall))
